@@ -339,6 +339,87 @@ def _compress(lines):
     return ' -> '.join(str(x) for x in out)
 
 
+# ------------------------------------------------------------------------------------------ G-DEFAULT
+def g_mutable_default(ck, funcs):
+    """A parameter whose default is a mutable display ([] / {} / set() / list() / dict()) is one object for all calls.  It is a defect
+    when that object escapes or changes: stored on the instance (every object built without the argument then shares - and, through
+    in-place edits, leaks - one list), returned, or mutated in place."""
+    n = 0
+    for f in funcs:
+        a = f.node.args
+        pos = a.posonlyargs + a.args
+        pairs = list(zip(pos[len(pos) - len(a.defaults):], a.defaults)) + [(x, d) for x, d in zip(a.kwonlyargs, a.kw_defaults) if d is not None]
+        for prm, d in pairs:
+            mutable = isinstance(d, (ast.List, ast.Dict, ast.Set)) or \
+                (isinstance(d, ast.Call) and isinstance(d.func, ast.Name) and d.func.id in ('list', 'dict', 'set', 'bytearray') and not d.args and not d.keywords)
+            if not mutable:
+                continue
+            n += 1
+            name = prm.arg
+            empty = not (getattr(d, 'elts', None) or getattr(d, 'keys', None))
+            o = ck.ob('G-DEFAULT', f, '%s=%s' % (name, ast.unparse(d)), prm)
+            bad = None
+            for x in _scope_nodes(f):
+                if isinstance(x, (ast.Assign, ast.AnnAssign, ast.AugAssign)):
+                    tg = x.targets if isinstance(x, ast.Assign) else [x.target]
+                    v = x.value
+                    esc = isinstance(v, ast.Name) and v.id == name
+                    # `p or other` hands out the default object itself only when it is truthy, i.e. non-empty
+                    if isinstance(v, ast.BoolOp) and isinstance(v.op, ast.Or) and isinstance(v.values[0], ast.Name) and v.values[0].id == name and not empty:
+                        esc = True
+                    if esc and any(isinstance(t, (ast.Attribute, ast.Subscript)) for t in tg):
+                        bad = ('`%s` stores the default object itself: every call that omits `%s` shares one %s, so an in-place edit made through one '
+                               'object shows up in all the others' % (ast.unparse(x)[:70], name, type(d).__name__.lower()))
+                    for t in tg:
+                        base = t
+                        while isinstance(base, (ast.Subscript,)):
+                            base = base.value
+                        if isinstance(t, ast.Subscript) and isinstance(base, ast.Name) and base.id == name:
+                            bad = '`%s` writes into the default object' % ast.unparse(x)[:70]
+                        if isinstance(x, ast.AugAssign) and isinstance(t, ast.Name) and t.id == name:
+                            bad = '`%s` extends the default object in place' % ast.unparse(x)[:70]
+                elif isinstance(x, ast.Call) and isinstance(x.func, ast.Attribute) and isinstance(x.func.value, ast.Name) and x.func.value.id == name \
+                        and x.func.attr in ('append', 'extend', 'update', 'add', 'insert', 'setdefault', 'pop', 'clear', 'remove', 'sort'):
+                    bad = '`%s` changes the default object in place' % ast.unparse(x)[:70]
+                elif isinstance(x, ast.Return) and x.value is not None and (
+                        (isinstance(x.value, ast.Name) and x.value.id == name) or
+                        (isinstance(x.value, (ast.Tuple, ast.List)) and any(isinstance(e_, ast.Name) and e_.id == name for e_ in x.value.elts))):
+                    bad = 'the default object itself is returned: the caller keeps (and fills) the one object that the next call starts from'
+                elif isinstance(x, ast.Call) and ck.prog is not None:
+                    # handed to a package function that writes into that parameter (an accumulator filled by the callee)
+                    try:
+                        q = ck.prog.canon(f, x.func)
+                    except Exception:
+                        q = None
+                    g = ck.prog.funcs.get(q) if q else None
+                    if g is not None:
+                        from ..core.expand import bind_args
+                        from .common import parameter_writes
+                        m_, ok_ = bind_args(g, x)
+                        for prm_, arg_ in (m_ or {}).items():
+                            if isinstance(arg_, ast.Name) and arg_.id == name:
+                                ws = [w_ for w_ in parameter_writes(ck.prog, g) if prm_ in ast.unparse(w_)]
+                                if ws:
+                                    bad = ('`%s` hands the default object to %s, which fills it (`%s`): what one call collects is still there in the next'
+                                           % (ast.unparse(x)[:60], g.short, ast.unparse(ws[0])[:40]))
+            (o.fail('mutable default argument: ' + bad) if bad else o.ok('the default object neither escapes nor changes'))
+    ck.extra.setdefault('generic_counts', {})['G-DEFAULT mutable defaults found'] = n
+
+
+def _scope_nodes(f):
+    out = []
+    def rec(nd):
+        for ch in ast.iter_child_nodes(nd):
+            if isinstance(ch, (ast.FunctionDef, ast.AsyncFunctionDef, ast.ClassDef, ast.Lambda)):
+                continue
+            out.append(ch)
+            rec(ch)
+    for st in f.node.body:
+        out.append(st)
+        rec(st)
+    return out
+
+
 def run_generic(ck, roots, stop_modules=(), zero_iter_funcs=(), accepted_unbound=None, extra_funcs=()):
     cg = ck.cg
     P = ck.prog
@@ -359,4 +440,5 @@ def run_generic(ck, roots, stop_modules=(), zero_iter_funcs=(), accepted_unbound
     g_api(ck, funcs)
     g_return(ck, funcs)
     g_unbound(ck, funcs, zero_iter_funcs=zero_iter_funcs, accepted=accepted_unbound)
+    g_mutable_default(ck, funcs)
     return funcs
